@@ -16,12 +16,13 @@ RULE = ('Cases: unambiguous tables of 2..12 samples (all bases; constant rows, w
         '[--allow-ambiguous] [--threads 1|2|4]` is compared with the model in exact rationals: SNPs = rows present in both and '
         'different, mismatch = rows in exactly one / rows in at least one, over rows present in >= ceil(f*n) samples; tolerance '
         'half a unit of the last printed digit.  Also: every unordered pair exactly once in input order, identical samples at '
-        '(0,0), proportion in [0,1], invariance under sample permutation and thread count.  Non-trivial: some pair has SNPs > 0 '
+        '(0,0), proportion in [0,1], invariance under sample permutation and thread count, and the same figures for the same table held in a file with a history (extra samples built in and deleted again; two halves merged), written with -o over an existing longer file.  Non-trivial: some pair has SNPs > 0 '
         'and 0 < mismatch < 1; distinct = distinct (table, setting).')
 ASSUMPTIONS = ['tables hold only A/C/G/T and gaps (the statement is about files without ambiguity codes)',
                'min-freq passed as a short decimal; exact rational used by the oracle']
 REQUIRED = {t: ['minfreq_drops_rows_with_3plus_samples', 'constant_rows', 'identical_sample_pairs', 'permutation_checked',
-                'threads:1', 'threads:2', 'threads:4', 'allow_ambiguous', 'pairs_checked'] for t in ('quick', 'thorough')}
+                'threads:1', 'threads:2', 'threads:4', 'allow_ambiguous', 'pairs_checked',
+                'history:delete', 'history:merge', 'history_allow_ambiguous_minfreq_drops'] for t in ('quick', 'thorough')}
 
 
 def builds(tier):
@@ -159,6 +160,35 @@ def run_case(desc, ctx):
         if T != rows:
             res.count('table_readout_mismatch(C01)')
             return res
+        # the same table as a file with a history: extra samples built in and deleted again, or two halves merged
+        hist = None
+        if desc['seed'] % 3 != 0:
+            hist = 'delete' if (desc['seed'] % 3 == 1 or ns < 2) else 'merge'
+            if hist == 'delete':
+                ne = rng.randint(1, 2)
+                ext = {a: [rng.choice('ACGT-') for _ in range(ne)] for a in rows}
+                for _ in range(rng.randint(1, 5)):
+                    a = G.canonical_arms(rng, k)
+                    if a not in rows:
+                        ext[a] = ['A'] * ne                      # rows private to the samples deleted later
+                xf = G.write_table_samples(ctx, ext, k, ne, prefix='x')
+                allf = list(fns)
+                for f in (xf or []):
+                    allf.insert(rng.randrange(len(allf) + 1), f)
+                ok = xf and G.ska_build(ctx, ctx.path('hall'), allf, k, True, binary=b).returncode == 0 and \
+                    ctx.sh(b, 'delete', '-s', ctx.path('hall.skf'), '-o', ctx.path('th'), *['x%d' % i for i in range(ne)]).returncode == 0
+            else:
+                cut = rng.randint(1, ns - 1)
+                ok = G.ska_build(ctx, ctx.path('h0'), fns[:cut], k, True, binary=b).returncode == 0 and \
+                    G.ska_build(ctx, ctx.path('h1'), fns[cut:], k, True, binary=b).returncode == 0 and \
+                    ctx.sh(b, 'merge', ctx.path('h0.skf'), ctx.path('h1.skf'), '-o', ctx.path('th')).returncode == 0
+            try:
+                hh, Th = G.nk(ctx, ctx.path('th.skf'), binary=b) if ok else (None, None)
+            except (G.NkFailed, ValueError):
+                hh, Th = None, None
+            if Th != rows or hh.get('names') != names:
+                res.count('history_file_not_as_modelled(C07/C08)')
+                hist = None
         perm = list(range(ns))
         rng.shuffle(perm)
         G.ska_build(ctx, ctx.path('tp'), [fns[i] for i in perm], k, True, binary=b)
@@ -210,6 +240,24 @@ def run_case(desc, ctx):
                         raise AssertionError('model inconsistency')
             if any(e[2] > 0 and 0 < e[3] < 1 for e in exp):
                 res.nontrivial.append(fingerprint([k, rows, mf, aa, thr]))
+            if hist:
+                # same content, different history; written with -o over an existing longer file
+                out = G.stale_file(ctx, 'stale.dist')
+                ah = ctx.sh(b, 'distance', ctx.path('th.skf'), *args, '-o', out)
+                res.evals += 1
+                badh = ['exit %d: %s' % (ah.returncode, ah.stderr.strip()[-150:])]
+                if ah.returncode == 0:
+                    try:
+                        badh = compare(parse_dist(open(out).read()), exp)
+                    except (ValueError, IndexError) as e:
+                        badh = ['unparsable output: %s' % e]
+                if badh:
+                    res.violate('C14:history:' + hist, 'k=%d ns=%d min-freq=%s allow-ambiguous=%s threads=%d: the same table after a %s gives other distances (-o file): %s'
+                                % (k, ns, mf, aa, thr, hist, '; '.join(badh[:3])), {'rows': rows, 'args': args, 'history': hist})
+                else:
+                    res.count('history:' + hist)
+                    if aa and dropped:
+                        res.count('history_allow_ambiguous_minfreq_drops')
             # permutation invariance: same unordered pair, same values (model-free)
             ap = ctx.sh(b, 'distance', ctx.path('tp.skf'), *args)
             res.evals += 1
